@@ -198,6 +198,11 @@ impl LinkBuilder<'_> {
 
 #[cfg(rumqtt_verif)]
 impl VerifPendingLink {
+    /// The router answered (or dropped) this connection attempt.
+    pub fn answered(&self) -> bool {
+        !self.link_rx.is_empty() || self.link_rx.is_disconnected()
+    }
+
     /// Second half of `build()`, non-blocking.
     pub fn try_finish(self) -> VerifFinish {
         match self.link_rx.try_recv() {
